@@ -31,6 +31,7 @@ FLOAT_TYPES = {'Vec2': 'f32', 'Vec3': 'f32', 'Vec3A': 'f32', 'Vec4': 'f32', 'DVe
 OP_TRAITS = {'Add', 'Sub', 'Mul', 'Div', 'Rem', 'Neg', 'AddAssign', 'SubAssign', 'MulAssign', 'DivAssign', 'RemAssign'}
 SAME_NAMED = {'abs', 'signum', 'copysign', 'min', 'max', 'floor', 'ceil', 'trunc', 'round', 'fract', 'recip', 'mul_add', 'exp', 'powf',
               'div_euclid', 'rem_euclid'}
+CMP6 = {'cmpeq': 'eq', 'cmpne': 'ne', 'cmplt': 'lt', 'cmple': 'le', 'cmpgt': 'gt', 'cmpge': 'ge'}
 EXPLICIT = {'clamp', 'fract_gl', 'is_nan_mask', 'is_finite_mask'}
 REDUCE = {'is_nan', 'is_finite', 'is_negative_bitmask', 'abs_diff_eq', 'eq', 'ne', 'min_element', 'max_element', 'min_position', 'max_position'}
 # SSE2 operations implemented by the integer round-trip algorithms (decided through rules/lift.py int_roundtrip_rewrite)
@@ -223,6 +224,38 @@ def run(ctx):
         ctx.floor('lane-wise float operations (%s)' % cfg, n_lane, FLOOR_LANEWISE)
         ctx.floor('float reductions / predicates (%s)' % cfg, n_red, FLOOR_REDUCE)
         ctx.floor('float vector types (%s)' % cfg, len(types), 7)
+        # the six comparisons: mask lane i is the primitive comparison of lane i (false on NaN except ne)
+        n_cmp = 0
+        for name, it, tn, w in float_roots(F):
+            mname = it.get('name') or ''
+            if it.get('trait') or mname not in CMP6:
+                continue
+            body = F.body(it['key'])
+            if body is None or body['argc'] != 2:
+                continue
+            n_cmp += 1
+            r = H.run(it['key'])
+            if r.abort:
+                ctx.unverifiable('R-LIFT', cfg, name, 'not analysable: %s' % r.abort)
+                continue
+            views = [ArgView(F, r, i, body['locals'][i + 1]) for i in range(2)]
+            lanes = value_lanes(F, r.ret, body['locals'][0])
+            bad = None
+            if r.panics:
+                bad = 'comparison has a reachable panic site'
+            elif lanes is None or views[0].kind != 'vec' or views[1].kind != 'vec' or len(lanes) != views[0].dim:
+                bad = 'result is not a mask with one lane per element'
+            else:
+                for i in range(views[0].dim):
+                    exp = tm.f2('f' + CMP6[mname], views[0].lanes[i], views[1].lanes[i])
+                    if lanes[i] is not exp:
+                        bad = 'mask lane %d is %s, expected the primitive %s' % (i, tm.show(lanes[i], 0, 4)[:160], tm.show(exp, 0, 4))
+                        break
+            if bad:
+                ctx.violation('R-LIFT', cfg, name, {'file': it['file'], 'line': it['line'], 'problem': bad})
+            else:
+                ctx.holds('R-LIFT', cfg, name)
+        ctx.floor('comparison operations (%s)' % cfg, n_cmp, 42)
         # Sum / Product over iterators are left folds of + / * (generic bodies)
         import fold
 
